@@ -1043,13 +1043,31 @@ class CaseRange(BaseException):
     an exact intermediate outside the double range, which every property excludes"""
 
 
+EARLY = 5.0          # first look at the stack after this many seconds
+_STAGE = {'second': False, 'rest': 0.0}
+
+
 def _alarm(_sig, frm):
     f = frm
     while f is not None:
         if f.f_code.co_filename.endswith('math_functions.py'):
             raise CaseRange()
         f = f.f_back
+    if not _STAGE['second'] and _STAGE['rest'] > 0:
+        import signal as _signal
+        _STAGE['second'] = True
+        _signal.setitimer(_signal.ITIMER_REAL, _STAGE['rest'])
+        return
     raise CaseTimeout()
+
+
+def arm(limit):
+    """two-stage alarm: after EARLY seconds look whether the time is going into exact integer arithmetic of
+    math_functions (then it is a range case at once); otherwise let the case run up to the full limit"""
+    import signal as _signal
+    _STAGE['second'] = False
+    _STAGE['rest'] = max(limit - EARLY, 0.0)
+    _signal.setitimer(_signal.ITIMER_REAL, min(EARLY, limit))
 
 
 def main():
@@ -1080,7 +1098,7 @@ def main():
             continue
         t_case = _time.time()
         try:
-            signal.setitimer(signal.ITIMER_REAL, limit)
+            arm(limit)
             try:
                 res = run_line(line)
             finally:
@@ -1093,6 +1111,12 @@ def main():
             res = 'ERROR timeout: the case did not finish within %.0f s (non-termination or unbounded growth)' % limit
         except Exception as ex:  # noqa: BLE001
             res = 'ERROR runner %s: %s' % (type(ex).__name__, str(ex).replace('\n', ' ')[:200])
+        if _time.time() - t_case > 3.0:
+            try:
+                with open(os.path.join(os.path.dirname(os.path.dirname(os.path.abspath(__file__))), '_work', 'slow_cases.log'), 'a') as _f:
+                    _f.write('%.1f s\t%s\t%s\n' % (_time.time() - t_case, line[:400], res[:80]))
+            except OSError:
+                pass
         out.write(res + '\n')
     out.flush()
 
